@@ -81,6 +81,14 @@ class Lowering:
             return getattr(A, e[1])(sp, A.VariableLookup(A.Variable(e[2], DT.INT, False), sp), A.VariableLookup(A.Variable(e[3], DT.INT, False), sp))
         if k == 'const':
             return A.BoolValue(e[1], sp)
+        if k == 'tobool':
+            return A.IntToBool(self.build(e[1]))
+        if k == 'ivar':
+            return A.VariableLookup(A.Variable(e[1], DT.INT, False), sp)
+        if k == 'tobyte':
+            return A.IntToByte(self.build(e[1]))
+        if k == 'widen':
+            return A.ByteToInt(self.build(e[1]))
         if k == 'not':
             return A.Not(sp, self.build(e[1]))
         if k == 'and':
@@ -142,8 +150,24 @@ class Lowering:
         return list(res.items)
 
 
+def ival(e, env, evals):
+    k = e[0]
+    if k == 'ivar':
+        evals.append(e[1])
+        return env[e[1]]
+    if k == 'tobyte':
+        return ival(e[1], env, evals) & 0xFF
+    if k == 'widen':
+        return ival(e[1], env, evals)
+    raise ValueError(e)
+
+
 def truth(e, env, evals):
     k = e[0]
+    if k in ('ivar', 'tobyte', 'widen'):
+        return ival(e, env, evals)      # (an int-valued sub-expression handed to a value evaluator)
+    if k == 'tobool':
+        return ival(e[1], env, evals) != 0
     if k == 'atom':
         evals.append(e[1])
         return bool(env[e[1]])
@@ -167,7 +191,9 @@ def atoms_of(e, out=None):
         out.append(('bool', e[1]))
     elif e[0] == 'cmp':
         out += [('int', e[2]), ('int', e[3])]
-    elif e[0] in ('not',):
+    elif e[0] == 'ivar':
+        out.append(('wide', e[1]))
+    elif e[0] in ('not', 'tobool', 'tobyte', 'widen'):
         atoms_of(e[1], out)
     elif e[0] in ('and', 'or'):
         atoms_of(e[1], out)
@@ -180,7 +206,7 @@ def assignments(e):
     for kind, name in atoms_of(e):
         if (kind, name) not in seen:
             seen.append((kind, name))
-    doms = [(0, 1) if kind == 'bool' else (0, 1, 2) for kind, _ in seen]
+    doms = [(0, 1) if kind == 'bool' else (0, 1, 256) if kind == 'wide' else (0, 1, 2) for kind, _ in seen]
     for vals in itertools.product(*doms):
         yield dict(zip([n for _, n in seen], vals))
 
@@ -198,7 +224,8 @@ def simulate(items, env, limit=400):
     def val(op):
         if isinstance(op, Sym):
             if isinstance(op.atom, tuple) and op.atom[0] == 'expr':
-                return int(truth(op.atom[1], env, []))
+                v_ = truth(op.atom[1], env, [])
+                return int(v_)
             return env[op.atom]
         if cname(op) == 'IntLiteral':
             return op.data
@@ -269,6 +296,9 @@ def simulate(items, env, limit=400):
 def trees(depth2):
     base = [('atom', 'p'), ('atom', 'q'), ('cmp', 'Lt', 'x', 'y'), ('cmp', 'Eq', 'x', 'y'), ('const', True), ('const', False)]
     cmps = [('cmp', c, 'x', 'y') for c in ('Ne', 'Gt', 'Le', 'Ge')]
+    # casts: the truthiness of an int, of an int narrowed to a byte (256 is 0 there), of a double cast; also below `not` / `and`
+    casts = [('tobool', ('ivar', 'n')), ('tobool', ('widen', ('tobyte', ('ivar', 'n'))))]
+    cmps = cmps + casts + [('not', c) for c in casts] + [('and', casts[1], ('atom', 'p')), ('or', ('atom', 'p'), casts[1])]
     d1 = [('not', b) for b in base] + [(op, l, r) for op in ('and', 'or') for l in base for r in base]
     out = base + cmps + d1
     reps = [('atom', 'p'), ('cmp', 'Lt', 'x', 'y'), ('const', True), ('const', False), ('not', ('atom', 'q')), ('and', ('atom', 'q'), ('atom', 'r')),
@@ -294,6 +324,10 @@ def show(e):
         return f'{e[2]} {e[1]} {e[3]}'
     if k == 'const':
         return 'true' if e[1] else 'false'
+    if k == 'ivar':
+        return e[1]
+    if k in ('tobool', 'tobyte', 'widen'):
+        return f'{k}({show(e[1])})'
     if k == 'not':
         return f'not ({show(e[1])})'
     return f'({show(e[1])}) {k} ({show(e[2])})'
